@@ -127,7 +127,7 @@ theorem step_opsChange {w s l s'} (hs : step w s l = some s') (hl : l.isOpEdge =
 
 /-- the payload an operation submits (independent of the wiring) -/
 def planPl (o : Nat) : OpKind → Option Payload
-  | .send m | .trySend m => some (.msg m none)
+  | .send m | .trySend m | .tryForce m => some (.msg m none)
   | .call m | .callw m | .tryCall m => some (.msg m (some o))
   | .ping => some (.ping o)
   | .halt | .tryHalt | .consume => some .stop
